@@ -60,6 +60,23 @@ inductive DatArg where
   | unknown
   deriving DecidableEq, Repr, Inhabited
 
+/-- AHAB certificate (the EdgeLock-enclave v2 credential): `struct` code of one field of `get_signature_data()` / `export()` / `parse()` -/
+inductive CertW where
+  | u8 | u16
+  | bytes (n : Nat)
+  /-- a sub-container appended / parsed as a whole -/
+  | raw
+  | unknown
+  deriving DecidableEq, Repr, Inhabited
+
+/-- what is written at a position of the certificate (pack side) / which attribute of the parsed object receives it (parse side) -/
+inductive CertRole where
+  | version | length | tag | sigOffset | invPerm | perm | permData | fuse | reserved | uuid | keyRecord | keyData | sig0
+  /-- parse side: read and dropped, or only checked -/
+  | dropped
+  | unknown
+  deriving DecidableEq, Repr, Inhabited
+
 /-- One row of the device database restricted to the `dat` feature, after SPSDK's alias / revision
     resolution (`revision = "latest"` rows included). -/
 structure DatRow where
